@@ -7002,7 +7002,7 @@ def subn(
 
             if loop is not False:
                 if loop := loop - 1:
-                    if m := replaced.match(pat):  # if `matched` somehow winds up deleted as None, the match will just fail
+                    if m := replaced.match(pat, ctx=ctx):  # if `matched` somehow winds up deleted as None, the match will just fail
                         matched = replaced
 
                         continue
